@@ -62,6 +62,7 @@
 #include <openssl/err.h>
 #include <openssl/ssl.h>
 #include <openssl/x509.h>
+#include <openssl/x509v3.h>
 
 namespace iora
 {
@@ -1691,6 +1692,33 @@ private:
       }
       ::SSL_set_fd(s->ssl, cfd);
       ::SSL_set_connect_state(s->ssl);
+      // Connection made to a host NAME (not an IP literal): send it as SNI and, when
+      // peer verification is on, bind the certificate check to that name — a chain
+      // to a trusted CA is not enough, the certificate must be issued for the host
+      // we asked for (RFC 6125). IP-literal targets keep the previous behaviour.
+      if (!manualAddrinfo && !cr.host.empty())
+      {
+        (void)::SSL_set_tlsext_host_name(s->ssl, cr.host.c_str());
+        if (_config.clientTls.verifyPeer)
+        {
+          ::SSL_set_hostflags(s->ssl, X509_CHECK_FLAG_NO_PARTIAL_WILDCARDS);
+          if (::SSL_set1_host(s->ssl, cr.host.c_str()) != 1)
+          {
+            decltype(_cbs.onClose) closeCb;
+            { std::lock_guard<std::mutex> g(_cbMutex); closeCb = _cbs.onClose; }
+            if (closeCb)
+            {
+              closeCb(cr.sid, TransportErrorInfo{TransportError::TLSHandshake, "SSL_set1_host failed"});
+            }
+            err(TransportError::TLSHandshake, "SSL_set1_host failed");
+            cancelConnectTimeout(s.get());
+            ::SSL_free(s->ssl);
+            s->ssl = nullptr;
+            ::close(cfd);
+            return false; // not inserted yet => no tags to clean
+          }
+        }
+      }
       s->tlsState = TlsState::Handshake;
       s->tlsStart = MonoClock::now();
       s->tlsWantWrite = true; // Client needs to send ClientHello first
